@@ -14,6 +14,7 @@ RULES = {
     'R3': ('r03_index', 'INDEX/RESET: derived state follows the primary container'),
     'R4': ('r04_key', 'KEY: explicit id honoured, guard tests the stored key, names unique'),
     'R5': ('r05_atomic', 'ATOMIC: Model mutators validate before they commit'),
+    'R6': ('r06_fresh', 'FRESH: nothing reachable from the loaded specification is mutated'),
     'R7': ('r07_copy', 'COPY: hand-written deep copies complete, independent, re-linked'),
 }
 
@@ -139,6 +140,18 @@ _p('C02', 'One node per asset x step, with attributes faithful to model and lang
    undecided=['value-level equality of node attributes', 'pjs default/validation behaviour'],
    anchors=[('R3', 'AttackGraph.add_node'), ('R4', 'AttackGraph.add_node'), ('R4', 'Model.add_asset')])
 
+_p('C03', 'Step inheritance resolves override/extend correctly and the lookup is pure',
+   ['R6', 'R3'],
+   decided=['R6: no in-place mutation anywhere in the package has a receiver that may be owned by the '
+            'loaded specification (whole-package points-to; deepcopy results tracked per key), so '
+            'lookups, language-graph and attack-graph generation leave the specification unmodified '
+            'and cannot make one type see another type\'s expressions through shared lists',
+            'R3: LanguageGraph.regenerate_graph re-initialises what __init__ initialises'],
+   undecided=['that the fold itself implements override/extend/absent correctly (table T10, not built)',
+              'equality of results across call orders beyond what purity implies'],
+   anchors=[('R6', 'LanguageGraph._get_attacks_for_asset_type'),
+            ('R3', 'LanguageGraph.regenerate_graph')], floor=5)
+
 _p('C05', 'The instance model stays coherent under any history of edits',
    ['R1', 'R2', 'R3', 'R4', 'R5'],
    decided=['R1: no Model mutator removes from a list it walks',
@@ -211,6 +224,15 @@ _p('C14', 'A deep copy of an attack graph is equal and fully independent',
    undecided=['behaviour of copy.deepcopy itself', 'value equality of serialised content'],
    anchors=[('R7', 'AttackGraphNode.__deepcopy__'), ('R7', 'Attacker.__deepcopy__'),
             ('R7', 'AttackGraph.__deepcopy__')], floor=20)
+
+_p('C16', 'Graph generation is deterministic and does not disturb its inputs',
+   ['R6'],
+   decided=['R6: generation, analysis and lookups never mutate an object that may be owned by the loaded '
+            'language specification'],
+   undecided=['determinism across hash seeds (rule R10, not built yet)', 'third-party internals',
+              'model serialisation unchanged (MODREF, not built yet)'],
+   anchors=[('R6', 'LanguageGraph._get_attacks_for_asset_type'), ('R6', 'AttackGraph._generate_graph')],
+   floor=5)
 
 _p('C15', 'Language graph mirrors the language and over-approximates every attack graph',
    ['R2', 'R3'],
